@@ -404,10 +404,20 @@ class Scen:
             # (MIR_gen then fails with "undeclared reg" or builds a CFG from stale label data -- wild writes under ASan);
             # a limitation of /repo investigated under C16 (generation can be repeated)
             fi = self.func_iface[f]
-            how = rng.choice(['call', 'call', 'interp', 'interpa'] if fi == 'interp' else
-                             ['call', 'call', 'gen'] if fi != 'lazybb' and gen_on else ['call'])
+            if f in self.gened:
+                how = 'call'
+            else:
+                how = rng.choice((['call', 'call', 'interp', 'interpa'] + (['interp+gen'] if gen_on else [])) if fi == 'interp' else
+                                 ['call', 'call', 'gen'] if fi != 'lazybb' and gen_on else ['call'])
             if fi in ('lazy', 'lazybb') and not gen_on:
                 continue     # its thunk would enter a generator that is gone
+            if how == 'interp+gen':
+                # interpret, then generate the same function (legal and leak-free since /repo 6b4b01d0 / e40fd49f), then
+                # call the generated code through the redirected thunk
+                self.lines += ['interp %s %d' % (f, arg), 'gen %s' % f]
+                self.gened.add(f)
+                self.kinds.append('interp-then-gen')
+                how = 'call'
             if how == 'gen':
                 self.lines.append('gen %s' % f)
                 how = 'call'
@@ -452,6 +462,7 @@ class Scen:
         self.gen_on = False
         self.iface = None
         self.func_iface = {}
+        self.gened = set()
         self.linked_funcs = []
         self.lines.append('init')
         for _ in range(self.nmod):
@@ -605,7 +616,7 @@ def valid(lines):
     st = {}
 
     def fresh():
-        return dict(init=True, fin=False, c2m=False, gen=False, mods=[], loaded=0, linked=0, fiface={}, dead=set(),
+        return dict(init=True, fin=False, c2m=False, gen=False, mods=[], loaded=0, linked=0, fiface={}, dead=set(), gened=set(),
                     optclass=None)
     for l in lines:
         m = re.match(r'^(\d) (\S+)(?: (\S+))?(?: (\S+))?(?: (\S+))?', l)
@@ -724,9 +735,11 @@ def valid(lines):
             if defined.get(a1, 10 ** 9) > s['linked'] or a1 not in s['fiface'] or a1 in s['dead']:
                 return False
             fi = s['fiface'][a1]
-            if cmd == 'gen' and (not s['gen'] or fi not in ('gen', 'lazy')):
+            if cmd == 'gen' and (not s['gen'] or fi not in ('gen', 'lazy', 'interp')):
                 return False
-            if cmd in ('interp', 'interpa') and fi != 'interp':
+            if cmd == 'gen' and fi == 'interp':
+                s['gened'].add(a1)
+            if cmd in ('interp', 'interpa') and (fi != 'interp' or a1 in s['gened']):
                 return False
             if cmd == 'call' and fi in ('lazy', 'lazybb') and not s['gen']:
                 return False
